@@ -94,7 +94,7 @@ def gen_params(ctx):
     for k in range(2 if ctx.quick else 20):  # a splice exactly on a reference location
         out.append(calib.random_params(rng, False, quick=True, nta=int(rng.integers(1, 3)), nmatch=0, nx=int(rng.integers(16, 24)), noise=0.01, nt=int(rng.integers(1, 3)), ta_on_ref=True))
     for k in range(2 if ctx.quick else 12):  # reference sections on one side of the splice only, a matching pair bridging it (splice behind / in front of all sections)
-        out.append(calib.random_params(rng, False, quick=True, nta=1, nmatch=1, nx=int(rng.integers(28, 38)), noise=0.01, nt=int(rng.integers(1, 3)),
+        out.append(calib.random_params(rng, False, quick=True, nta=1, nmatch=1, nx=int(rng.integers(28, 38)), noise=0.01, nt=int(rng.integers(2, 4)),
                                        **({"front_only": True} if k % 2 else {"back_only": True})))
     # scale family: the same construction from 10 m to 10 km
     base = calib.random_params(rng, False, quick=True, nmatch=0, noise=0.01, nta=0, nt=1)
